@@ -27,7 +27,7 @@ fn main() {
             let mut sink = Sink::default();
             eval::CURRENT_PROP.with(|p| *p.borrow_mut() = prop.clone());
             let debug = cfg!(debug_assertions);
-            let n = if thorough { 150_000 } else { 12_000 };
+            let n = util::scaled(if thorough { 150_000 } else { 12_000 });
             match prop.as_str() {
                 "C10" => gen_pure::gen_c10(&mut sink, thorough, seed),
                 "C11" => gen_pure::gen_c11(&mut sink, thorough, seed),
